@@ -1,4 +1,4 @@
-import OdxVerif.Proofs.CompDescribed
+import OdxVerif.Proofs.CompExtDescribed
 import OdxVerif.Proofs.CompTruncAll
 /-! C05 for the nested tier (task W19), bridge to the compositional tier (`Comp`, `Described`, `Pair.fits`): the
     `decodeParam … = .ok …` premises of `Reads` (what lies in front of the object decoded) are discharged by `decode_eq` of
@@ -6,18 +6,30 @@ import OdxVerif.Proofs.CompTruncAll
 namespace OdxVerif.Codec
 open OdxVerif.Bits OdxVerif.OdxM
 
+/-- the decoder half of `Comp.Ok` / `Comp.OkM`: the model's `decodeParam` equals the pair when the component fits -/
+structure Comp.DecOk (g : Comp) : Prop where
+  dec_cursorBit : ∀ (d : DecState), d.cursorBit = 0 → (g.pair.dec d).2.cursorBit = 0
+  decode_eq : ∀ (fuel : Nat), g.need ≤ fuel → ∀ (d : DecState), d.cursorBit = 0 → g.pair.fits d → g.decPre d →
+    decodeParam fuel g.param d true = .ok ((g.pair.dec d).1, (g.pair.dec d).2)
+
+theorem Comp.Ok.decOk {g : Comp} (h : g.Ok) : g.DecOk := ⟨h.dec_cursorBit, h.decode_eq⟩
+theorem Comp.OkM.decOk {g : Comp} {mid : Bool} {P : EncState → Prop} (h : g.OkM mid P) : g.DecOk := ⟨h.dec_cursorBit, h.decode_eq⟩
+theorem Described.decOk {g : Comp} (h : Described g) : g.DecOk := h.ok.1.decOk
+theorem Described2.decOk {g : Comp} {mid : Bool} (h : Described2 g mid) : g.DecOk := (h.ok.1 (fun _ => True)).decOk
+
 /-- what the decoder has to read behind a list of components that fit is read by the whole parameter list -/
-theorem Comps.reads_prefix : (pre : List Comp) → Comps.okAll pre → ∀ (f : Nat), (∀ g ∈ pre, g.need ≤ f) → ∀ (d : DecState),
+theorem Comps.reads_prefix : (pre : List Comp) → (∀ g ∈ pre, g.DecOk) → ∀ (f : Nat), (∀ g ∈ pre, g.need ≤ f) → ∀ (d : DecState),
     d.cursorBit = 0 → (Comps.pair pre).fits d → Comps.decPre pre d → ∀ (rest : List Param) (dr : DecState) (bl : Nat),
     Reads true f (.params rest) ((Comps.pair pre).dec d).2 dr bl →
     Reads true (f + pre.length) (.params (Comps.toParams pre ++ rest)) d dr bl
   | [], _, _, _, _, _, _, _, _, _, _, h => h
   | g :: gs, hok, f, hneed, d, hcb, hfit, hpre, rest, dr, bl, h => by
+    have hg := hok g (List.mem_cons_self ..)
     have hfit' : g.pair.fits d ∧ (Comps.pair gs).fits (g.pair.dec d).2 := hfit
-    have h1 := hok.1.decode_eq (f + gs.length) (Nat.le_trans (hneed g (List.mem_cons_self ..)) (Nat.le_add_right _ _)) d hcb
+    have h1 := hg.decode_eq (f + gs.length) (Nat.le_trans (hneed g (List.mem_cons_self ..)) (Nat.le_add_right _ _)) d hcb
       hfit'.1 hpre.1
-    have h2 := Comps.reads_prefix gs hok.2 f (fun x hx => hneed x (List.mem_cons_of_mem _ hx)) (g.pair.dec d).2
-      (hok.1.dec_cursorBit d hcb) hfit'.2 hpre.2 rest dr bl h
+    have h2 := Comps.reads_prefix gs (fun x hx => hok x (List.mem_cons_of_mem _ hx)) f
+      (fun x hx => hneed x (List.mem_cons_of_mem _ hx)) (g.pair.dec d).2 (hg.dec_cursorBit d hcb) hfit'.2 hpre.2 rest dr bl h
     exact Reads.paramsTail (f + gs.length) g.param (Comps.toParams gs ++ rest) d _ dr _ bl h1 h2
 
 /-- a VALUE parameter typed by a STRUCTURE: what its parameter list has to read, the parameter has to read -/
